@@ -48,7 +48,10 @@ fn layout(rng: &mut Rng, secs: &[(String, Vec<(String, String)>)], wild: bool) -
                 if pieces.len() > 1 { val = pieces.join(" && \\\n      "); }
             }
             let trailing = if wild && name != "matchers" && name != "policy_effect" && rng.chance(1, 3) { *rng.pick(&["   # trailing comment", " # see issue #12", "  ## note", " #", " # a = b, c # d"]) } else { "" };
-            s.push_str(&format!("{}{}{}{}{}\n", lead, k, eq, val, trailing));
+            // a value may end in a backslash when a comment or blank line follows: that line ends the value (a comment or blank
+            // line is never part of a continued value — the reference implementation's reading, pinned by examples/testini.ini)
+            let dangling = if wild && trailing.is_empty() && rng.chance(1, 6) { *rng.pick(&[" \\\n# a comment right after a trailing backslash\n", " \\\n\n", "\\\n; c\n", " \\\n   \n#\n"]) } else { "\n" };
+            s.push_str(&format!("{}{}{}{}{}{}", lead, k, eq, val, trailing, dangling));
         }
     }
     if wild && rng.chance(1, 2) { s.push_str("\n# end\n"); }
